@@ -73,17 +73,15 @@ def run_parallel(cmds, timeout):
 
 
 def model_lines(env, name, mode, lines, timeout=900, nproc=NPROC):
-    """`nsmodel <mode>` over `lines` (one result line per input line), split over nproc processes."""
+    """`nsmodel <mode>` over `lines` (one result line per input line), dealt round-robin to nproc
+    processes (expensive cases cluster by operation) and put back in order."""
     n = len(lines)
     if n == 0:
         return []
     k = max(1, min(nproc, n // 200 + 1))
-    size = (n + k - 1) // k
     cmds, outs = [], []
     for i in range(k):
-        part = lines[i * size:(i + 1) * size]
-        if not part:
-            continue
+        part = lines[i::k]
         inp = os.path.join(env.work, "%s.%d.min" % (name, i))
         outp = os.path.join(env.work, "%s.%d.mout" % (name, i))
         open(inp, "w").write("\n".join(part) + "\n")
@@ -92,12 +90,14 @@ def model_lines(env, name, mode, lines, timeout=900, nproc=NPROC):
         cmds.append([common.NSMODEL, mode, inp, outp])
         outs.append((outp, len(part)))
     rs = run_parallel(cmds, timeout)
-    res = []
-    for (rc, out), (outp, cnt) in zip(rs, outs):
+    res = [None] * n
+    for i, ((rc, out), (outp, cnt)) in enumerate(zip(rs, outs)):
         if rc != 0 or not os.path.exists(outp):
             raise RuntimeError("nsmodel %s failed (rc=%s): %s" % (mode, rc, out[-400:]))
         got = open(outp).read().splitlines()
-        res += got
+        if len(got) != cnt:
+            raise RuntimeError("nsmodel %s: %d result lines for %d cases" % (mode, len(got), cnt))
+        res[i::k] = got
     return res
 
 
